@@ -58,6 +58,20 @@ func runC02(a *A) {
 		}
 	})
 	a.Rule("flow/last-sent", 1, func() { a.ruleLastSent() })
+	// "a row that is not late is never lost": the interval bookkeeping rules of C01/C08 are necessary
+	// conditions of this property as well (a skipped interval strands its on-time rows)
+	a.Rule("shape/advance-by-one", 8, func() {
+		for _, w := range []string{"TumblingWindow", "SlidingWindow"} {
+			a.ruleAdvanceByOne(a.Named("window", w), map[string]string{
+				"(*window." + w + ").Add":   "aligned slot of the first event",
+				"(*window." + w + ").Reset": "clears the window",
+			})
+		}
+	})
+	a.Rule("shape/buffer-arrival-order", 8, func() {
+		a.ruleBufferArrivalOrder(a.Named("window", "TumblingWindow"))
+		a.ruleBufferArrivalOrder(a.Named("window", "SlidingWindow"))
+	})
 	a.Rule("shape/watermark-formula", 2, func() {
 		W := wmT()
 		cur := a.FieldOf(W, "currentWatermark")
